@@ -11,5 +11,6 @@ CONSTANTS PatChars = {65, 97, 49, 35, 42, 46, 58, 94, 91, 92, 123, 60, 36, 45, 4
  CtxDirs = {36, 94}
 INVARIANT ModelMeetsR
 INVARIANT DocExamples
+INVARIANT FindMeetsR
 INVARIANT Emit
 CHECK_DEADLOCK FALSE
